@@ -148,7 +148,11 @@ def run(ctx, rep):
             wantv = BUILD_ID if variant == "GnuBuildId" else ABI_TAG
             if is_gnu is not True:
                 msgs.append("typed variant %s produced without the name being proven equal to \"GNU\\0\"" % variant)
-            if nty is None or ("eq", nty, wantv) not in st.facts:
+            nty_ok = nty is not None and ("eq", nty, wantv) in st.facts
+            if not nty_ok:
+                # the header may have been parsed by a private helper: find the test by the provenance of the tested value
+                nty_ok = any(f[0] == "eq" and f[2] == wantv and isinstance(f[1], Term) and norm(f[1]) == F_(H, "n_type") for f in st.facts)
+            if not nty_ok:
                 msgs.append("typed variant %s produced without n_type == %d" % (variant, wantv))
             if variant == "GnuAbiTag":
                 pr = v[3][0]
@@ -165,6 +169,12 @@ def run(ctx, rep):
     # header parse call
     hc = [c for c in an.calls() if c.callee_qual == "<note::NoteHeader as parse::ParseAt>::parse_at"]
     good = len(hc) == 1 and hc[0].args[0] is T.param(1) and norm(hc[0].args[1]) == ELF32 and hc[0].arg_lvs[2] == p4lv and hc[0].args[3] is T.param(5)
+    if not hc:
+        # parsed inside a private helper: the header every success path depends on is the parse, with the note's endian and
+        # Class::ELF32, of the data at the incoming cursor (that is what the normal form H says)
+        good = n_ok > 0 and all(any(isinstance(y, Term) and any(norm(z) == H for z in y.subterms() if z.op == "payload")
+                                    for f in st_.facts for y in f[1:])
+                                for t_, st_, _ in paths if t_.op == "agg" and t_.args[3] == "Ok")
     rep.require(good, "note", "header-class", w, "header parsed with Class::ELF32, the note's endian, at the cursor",
                 "note header parse call: %s" % [pp(a)[:60] for c in hc for a in c.args])
 
